@@ -125,7 +125,7 @@ def estimate_varatio(Y, sd, df=None, niter=10):
     sigma2 = sigma2 - minS
     if df is None:
         df = np.ones(nsubject)
-    df.shape = (1, nsubject)
+    df = np.reshape(df, (1, nsubject))
     _Sshape = S.shape
     S.shape = (S.shape[0], np.prod(S.shape[1:]))
 
